@@ -171,7 +171,8 @@ class TableChecker:
             return "disjoint", []
         conds = [parse_term(c, self.decls(path.pc)) for c in tw]
         s = z3.Solver()
-        s.set("timeout", 3000)
+        s.set("rlimit", 4_500_000)  # deterministic budget (about 3 s idle); the wall-clock limit is a safety net only
+        s.set("timeout", 180_000)
         for h in hyps:
             if not z3.is_quantifier(h):
                 s.add(h)
